@@ -429,6 +429,22 @@ def const_value(ctx, f, e):
     return None
 
 
+_ORD_NEG = {ast.Lt: ast.GtE, ast.LtE: ast.Gt, ast.Gt: ast.LtE, ast.GtE: ast.Lt}
+
+
+def _int_valued(e):
+    return (isinstance(e, ast.Call) and isinstance(e.func, ast.Name) and e.func.id == "len") or (
+        isinstance(e, ast.Constant) and isinstance(e.value, int) and not isinstance(e.value, bool))
+
+
+def _fold_order(e, pol):
+    """(not (a <= b)) is (a > b) when both sides are integers (a len(..) / an int literal): totally ordered values"""
+    if (not pol) and isinstance(e, ast.Compare) and len(e.ops) == 1 and type(e.ops[0]) in _ORD_NEG \
+            and _int_valued(e.left) and _int_valued(e.comparators[0]):
+        return ast.copy_location(ast.Compare(left=e.left, ops=[_ORD_NEG[type(e.ops[0])]()], comparators=e.comparators), e), True
+    return e, pol
+
+
 def norm_facts(node, stop=None):
     """facts_at(node) as a set of (canonical text, polarity), with negative comparison operators folded into the polarity:
     (a != b, False) == (a == b, True); `not x` likewise. Use this instead of looking for an `if` with a given test: it does
@@ -442,6 +458,7 @@ def norm_facts(node, stop=None):
         if isinstance(e, ast.Compare) and len(e.ops) == 1 and type(e.ops[0]) in neg:
             e = ast.Compare(left=e.left, ops=[neg[type(e.ops[0])]()], comparators=e.comparators)
             pol = not pol
+        e, pol = _fold_order(e, pol)
         out.add((CT(U(e)), pol))
     return out
 
@@ -456,6 +473,7 @@ def norm_fact_nodes(node, stop=None):
         if isinstance(e, ast.Compare) and len(e.ops) == 1 and type(e.ops[0]) in neg:
             e = ast.copy_location(ast.Compare(left=e.left, ops=[neg[type(e.ops[0])]()], comparators=e.comparators), e)
             pol = not pol
+        e, pol = _fold_order(e, pol)
         out.append((e, pol))
     return out
 
